@@ -13,7 +13,7 @@ RULE = (
     "(graph signature, op-kind sequence) pairs whose history contains at least one derived read after an assignment"
 )
 REQUIRED = {"reads_derived": 2000, "reverts_partial": 50, "reverts_full": 100, "clones": 100, "quiescent_checks": 1000,
-            "model_histories": 10, "reads_unset_raised": 20, "many_path_graphs": 50, "weighted_assignments": 200, "histories_on_unusual_scales": 50, "refused_assignments": 300}
+            "model_histories": 10, "reads_unset_raised": 20, "many_path_graphs": 50, "weighted_assignments": 200, "histories_on_unusual_scales": 50, "refused_assignments": 300, "left_broadcast_partial_reverts": 100}
 ASSUMPTIONS = [
     "the documented precondition of a partial revert is respected by the generator (only individual-wise nodes are read between an "
     "assignment and a per-individual revert); individual-wise = no ancestor aggregates over individuals (toy: by construction; "
@@ -34,6 +34,66 @@ def shards(tier, seed):
     return out
 
 
+def _left_broadcast_reverts(spec, ctx):
+    """Partial reverts with the documented standard (left) broadcasting of the subset: a per-column subset on element-wise graphs
+    (the caller's responsibility - shapes consistent for the assigned node and all its descendants - is met by construction)."""
+    import torch
+
+    from leaspy.variables.dag import VariablesDAG
+    from leaspy.variables.specs import DataVariable, LinkedVariable
+    from leaspy.variables.state import State, StateForkType
+    from vf import stateharness as sh
+
+    dag = VariablesDAG.from_dict({"x": DataVariable(), "a": LinkedVariable(lambda *, x: 2.0 * x + 1.0), "b": LinkedVariable(lambda *, a, x: a * x - 0.5),
+                                  "c": LinkedVariable(lambda *, b: b.abs() + 3.0)})
+    for j in range(120):
+        r = ctx.rng("left-broadcast", spec["k"], j)
+        n = int(r.integers(1, 5))
+        K = n if j % 2 == 0 else int(r.integers(1, 5))  # square shapes: a mask applied along the wrong axis still "fits"
+        fork = (StateForkType.REF, StateForkType.COPY)[j % 3 == 0]
+        st = State(dag, auto_fork_type=fork)
+        x0 = torch.tensor(r.normal(size=(n, K)), dtype=torch.float32)
+        x1 = torch.tensor(r.normal(size=(n, K)), dtype=torch.float32)
+        with st.auto_fork(None):
+            st["x"] = x0
+        pre = int(r.integers(0, 3))  # what is cached before the move
+        for nm in ("a", "b", "c")[:pre]:
+            st[nm]
+        st["x"] = x1
+        for nm in ("a", "b", "c"):
+            st[nm]
+        per_column = bool(j % 4 != 3)
+        mask = torch.tensor(r.random(K if per_column else (n, K)) < 0.5)
+        case = {"index": -1 - j, "kind": "left-broadcast-revert", "shape": [n, K], "subset_shape": list(mask.shape), "fork": str(fork), "cached_before": pre}
+        ctx.evaluated()
+        try:
+            st.revert(mask, right_broadcasting=False)
+        except Exception as e:
+            ctx.violation("state/partial-revert-left-broadcasting-raises", f"revert(subset of shape {tuple(mask.shape)}, right_broadcasting=False) on values of shape {(n, K)} "
+                          f"raised {type(e).__name__}: {str(e)[:120]}", case)
+            continue
+        m = mask.expand(n, K)
+        xe = torch.where(m, x0, x1)
+        want = {"x": xe, "a": 2.0 * xe + 1.0}
+        want["b"] = want["a"] * xe - 0.5
+        want["c"] = want["b"].abs() + 3.0
+        ctx.count("left_broadcast_partial_reverts")
+        for nm, w in want.items():
+            got = st._values[nm]
+            if nm != "x" and got is None:
+                continue  # un-cached is always fine: it will be recomputed
+            if got is None or not sh.same(got, w):
+                ctx.violation("state/stale-cache-after-partial_revert" if nm != "x" else "state/independent-value-wrong-after-partial_revert",
+                              f"after revert(per-{'column' if per_column else 'entry'} subset, right_broadcasting=False) '{nm}' is not the mix of old and "
+                              "new values the subset selects", case, got=sh.brief(got), want=sh.brief(w))
+                break
+        else:
+            for nm, w in want.items():
+                if not sh.same(st[nm], w):
+                    ctx.violation("state/stale-cache-after-partial_revert", f"read of '{nm}' after the left-broadcast partial revert differs from the from-scratch value", case)
+                    break
+
+
 def run_shard(spec, ctx):
     import torch
 
@@ -49,6 +109,8 @@ def run_shard(spec, ctx):
             ctx.violation(key, what, dict(case, history=[list(map(str, op)) for op in log[-25:]]), **obs)
         return v
 
+    if kind == "toy" and spec["k"] % 4 == 0:
+        _left_broadcast_reverts(spec, ctx)
     for i in ctx.cases(spec["n"]):
         rng = ctx.rng(kind, spec["k"], i)
         case = {"index": i, "kind": kind}
